@@ -39,6 +39,18 @@ pub fn gen_case(prop: &str, seed: u64) -> Case {
             p.w_reopen = 8;
             p.w_select = 3;
             p.w_advance = 8;
+            // a fifth of the runs works with many tables (two-digit table ids, long manifests)
+            if krng.chance(1, 5) {
+                p.max_tables = 16;
+                p.max_steps = 80;
+                p.w_create = 30;
+                p.w_drop = 10;
+                p.w_insert = 26;
+                p.w_delete = 18;
+                p.w_advance = 3;
+                p.w_reopen = 4;
+                p.max_rows_per_insert = 4;
+            }
             let mut g = Gen::new(&mut wrng, p);
             let mut steps = g.history();
             // always end with a reopen followed by statements the reopened database must accept
